@@ -10,5 +10,6 @@ CONSTANTS
   MaxTop = 3
   MinKids = 0
   Once = {}
+  SpineDeep = FALSE
 INVARIANTS TypeOK NeverCrash RejectedHasErrors AcceptedHasNoDangling AcceptedCompiles StackIsOpenChain ProgramWellFormed MisplacedCounted
 CHECK_DEADLOCK FALSE
